@@ -223,3 +223,46 @@ MUTANTS = [
     ("builder_last_match", "sqlfluff/core/linter/linted_file.py", "                    str_buff += patch.fixed_raw\n                    break", "                    str_buff += patch.fixed_raw"),
     ("builder_uses_source_str", "sqlfluff/core/linter/linted_file.py", "                    str_buff += patch.fixed_raw\n", "                    str_buff += patch.source_str\n"),
 ]
+
+
+# ------------------------------------------------------------------ the call site (Linter.lint_parsed)
+def lint_parsed_patch_flow(tier="quick", seed=0):
+    """EXTRA: the region contract `Linter.lint_parsed#violations-flow` lives in contracts/c33.py (its assumed neighbours are declared
+    there, and its `merge_source_patches` neighbour would shadow the VERIFIED contract of this module if both were imported into one
+    process); its third postcondition is C30's call-site clause: whenever fixes were generated, the patches stored on the LintedFile
+    went through merge_source_patches, whatever the number of variants.  It is discharged here by running that one function of
+    the C33 module in a child process against the same source tree and counting its obligations."""
+    import os, re, subprocess, sys
+    import sqlfluff
+    root = os.path.dirname(os.path.dirname(os.path.abspath(__file__)))
+    src = os.path.dirname(os.path.dirname(os.path.abspath(sqlfluff.__file__)))
+    cmd = [sys.executable, "-m", "pyvc.runner", "C33", "--fn", "Linter.lint_parsed#violations-flow", "--src", src, "-v"]
+    p = subprocess.run(cmd, cwd=root, capture_output=True, text=True, env=dict(os.environ, PYVC_JOBS="4"))
+    m = re.search(r"obligations=(\d+) discharged=(\d+) failed=(\d+) known=\d+ undecided=(\d+) crashes=(\d+)", p.stdout)
+    fn = "sqlfluff.core.linter.linter:Linter.lint_parsed#violations-flow"
+    failed, undecided = [], []
+    if not m:
+        undecided.append({"function": fn, "reason": "child run produced no summary: " + (p.stdout + p.stderr)[-300:]})
+        return {"name": "lint_parsed-patch-flow", "obligations": 1, "discharged": 0, "failed": [], "undecided": undecided, "samples": [],
+                "trusted": [], "backend": "pyvc region contract (child process)"}
+    n, d, f, u, c = map(int, m.groups())
+    for line in p.stdout.splitlines():
+        if line.strip().startswith("FAILED"):
+            oid = line.split()[1].replace("C33/", "C30/call-site/", 1)
+            failed.append({"name": oid, "id": re.sub(r"/L\d+#\d+$", "", oid), "kind": "post", "status": "failed", "function": fn,
+                           "detail": {"child_output": line.strip()[:400]}, "reproduced": False})
+        elif line.strip().startswith(("UNDECIDED", "CRASH")):
+            undecided.append({"function": fn, "reason": line.strip()[:300]})
+    return {"name": "lint_parsed-patch-flow", "obligations": n, "discharged": d, "failed": failed, "undecided": undecided,
+            "samples": [{"function": fn, "obligations": n, "discharged": d}],
+            "trusted": ["region contract Linter.lint_parsed#violations-flow (contracts/c33.py): its neighbours lint_fix_parsed, "
+                        "generate_source_patches, merge_source_patches are havocked there; merge_source_patches' meaning is THIS module's proof"],
+            "backend": "pyvc region contract, z3 (child process)"}
+
+
+EXTRA = list(globals().get("EXTRA", [])) + [lint_parsed_patch_flow]
+MUTANTS = list(MUTANTS) + [
+    ("lint_parsed_skips_merge_for_one_variant", "sqlfluff/core/linter/linter.py",
+     "            if fix:\n                merged_source_patches = merge_source_patches(variant_source_patches)\n",
+     "            if fix:\n                merged_source_patches = (\n                    variant_source_patches[0]\n                    if len(variant_source_patches) == 1\n                    else merge_source_patches(variant_source_patches)\n                )\n"),
+]
